@@ -17,6 +17,7 @@ PROPS = {
     "C04": P(),
     "C17": P(race={"quick": True, "thorough": True}, shards={"quick": 6, "thorough": 12}, gomaxprocs=[4, 2, 8, 16, 3, 6], shard_timeout={"quick": 900, "thorough": 3000}),
     "C11": P(shard_timeout={"quick": 900, "thorough": 3000}),
+    "C10": P(shard_timeout={"quick": 1200, "thorough": 3000}),
     "C05": P(),
     "C06": P(),
     "C20": P(),
